@@ -1,5 +1,6 @@
 import SphericalVerif.Gen.MethodKern
 import SphericalVerif.Props.Footprint
+import SphericalVerif.Props.C09
 /-! GenMethod — **the wiring of the public methods, from the method text**.
 
     `Gen/MethodKern.lean` is regenerated on every run from the bodies of `Wigner.D`, `Wigner.sYlm` and the Horner branches
@@ -132,6 +133,170 @@ theorem rotate_rotor_only (R : Int → α) (zI : Nat) (g h : Int → α) (L P : 
   exact Only.mono _ _ _ _ (by sub_ids) (euler_only R zI st)
 end
 
+/-! ### the loop over rotors (`for i_R in range(quaternions.shape[0])`), as generated: every output row is the single-rotor result -/
+section
+variable {α : Type} [Scalar α] {φ : Type} [FMem φ α] [LawfulFMem φ α]
+
+/-- a cell of an array that no later iteration may write keeps the value iteration `i` left in it -/
+theorem loop_keeps (body : Nat → φ → φ) (ids : Nat → List Nat) (hframe : ∀ k st, Only α (ids k) st (body k st))
+    (N i : Nat) (hi : i < N) (arr : Nat) (hnot : ∀ k, i < k → k < N → arr ∉ ids k) (idx : Int) (st : φ) :
+    frd (α := α) (loopN N body st) arr idx = frd (α := α) (body i (loopN i body st)) arr idx := by
+  induction N with
+  | zero => omega
+  | succ n ih =>
+    simp only [loopN]
+    by_cases h : i = n
+    · subst h; rfl
+    · rw [hframe n _ arr idx (hnot n (by omega) (by omega))]
+      exact ih (by omega) (fun k h1 h2 => hnot k h1 (by omega))
+
+theorem loop_keepsC (body : Nat → φ → φ) (ids : Nat → List Nat) (hframe : ∀ k st, Only α (ids k) st (body k st))
+    (N i : Nat) (hi : i < N) (arr : Nat) (hnot : ∀ k, i < k → k < N → arr ∉ ids k) (idx : Int) (st : φ) :
+    frdC (α := α) (loopN N body st) arr idx = frdC (α := α) (body i (loopN i body st)) arr idx := by
+  unfold frdC
+  rw [loop_keeps body ids hframe N i hi arr hnot, loop_keeps body ids hframe N i hi arr hnot]
+
+/-- the row `Wigner.D`'s loop body writes does not depend on the memory the body starts from (workspace left by earlier rotors,
+    earlier content of the output): every arithmetic, bit for bit -/
+theorem D_rotor_pure (L : Nat) (ell_min : Int) (zI aI gI DI : Nat) (a b d g h : Int → α) (ht : TabOK L a b d g h) (imsqrt : Cx α → α)
+    (R : Int → α) (st₁ st₂ : φ) (h0 : 0 ≤ ell_min)
+    (hz : 2 < zI) (ha : 2 < aI) (hg : 2 < gI) (hza : zI ≠ aI) (hzg : zI ≠ gI) (hag : aI ≠ gI)
+    (ell : Nat) (mp m : Int) (h1 : ell_min ≤ ell) (hl : ell ≤ L) (hmp : mp.natAbs ≤ ell) (hm : m.natAbs ≤ ell) :
+    frdC (α := α) (Gen.Wigner_D_rotor (α := α) R zI g h (L : Int) (L : Int) a b d idW idV idX DI aI imsqrt gI ell_min st₁) DI
+        (WignerDindex (ell : Int) mp m ell_min (-1))
+      = frdC (α := α) (Gen.Wigner_D_rotor (α := α) R zI g h (L : Int) (L : Int) a b d idW idV idX DI aI imsqrt gI ell_min st₂) DI
+        (WignerDindex (ell : Int) mp m ell_min (-1)) := by
+  rw [D_rotor_eq L ell_min zI aI gI DI a b d g h imsqrt R st₁ hz ha hg hza hzg hag,
+    D_rotor_eq L ell_min zI aI gI DI a b d g h imsqrt R st₂ hz ha hg hza hzg hag,
+    GenChain.gen_D_chain L ell_min zI aI gI DI a b d g h ht imsqrt R st₁ (fun _ => R 0) h0 ell mp m h1 hl (by omega) (by omega) (by omega) (by omega),
+    GenChain.gen_D_chain L ell_min zI aI gI DI a b d g h ht imsqrt R st₂ (fun _ => R 0) h0 ell mp m h1 hl (by omega) (by omega) (by omega) (by omega)]
+  exact C09.objD_pure L _ _ _ _ _ _ imsqrt ell mp m hl hmp hm
+
+/-- **C17 for the generated `Wigner.D`**: after the whole loop over `N` rotors, row `i` of the output holds exactly (every arithmetic: bit
+    for bit) what the single-rotor body writes for rotor `i` on ANY memory `st'` — in particular on a fresh workspace.  Rows are
+    distinct arrays, distinct from the workspace parts. -/
+theorem D_loop_row (N : Nat) (L : Nat) (ell_min : Int) (zI aI gI : Nat) (rows : Int → Nat) (a b d g h : Int → α) (ht : TabOK L a b d g h)
+    (imsqrt : Cx α → α) (quats : Int → Int → α) (st st' : φ) (h0 : 0 ≤ ell_min)
+    (hz : 2 < zI) (ha : 2 < aI) (hg : 2 < gI) (hza : zI ≠ aI) (hzg : zI ≠ gI) (hag : aI ≠ gI)
+    (hrows : ∀ k : Nat, k < N → 2 < rows k ∧ rows k ≠ zI ∧ rows k ≠ aI ∧ rows k ≠ gI)
+    (hinj : ∀ j k : Nat, j < N → k < N → j ≠ k → rows j ≠ rows k)
+    (i : Nat) (hi : i < N) (ell : Nat) (mp m : Int) (h1 : ell_min ≤ ell) (hl : ell ≤ L) (hmp : mp.natAbs ≤ ell) (hm : m.natAbs ≤ ell) :
+    frdC (α := α) (Gen.Wigner_D_loop (α := α) (N : Int) quats zI g h (L : Int) (L : Int) a b d idW idV idX rows aI imsqrt gI ell_min st) (rows i)
+        (WignerDindex (ell : Int) mp m ell_min (-1))
+      = frdC (α := α) (Gen.Wigner_D_rotor (α := α) (quats i) zI g h (L : Int) (L : Int) a b d idW idV idX (rows i) aI imsqrt gI ell_min st') (rows i)
+        (WignerDindex (ell : Int) mp m ell_min (-1)) := by
+  unfold Gen.Wigner_D_loop
+  have eN : ((N : Int) - (0 : Int)).toNat = N := by omega
+  rw [eN]
+  rw [loop_keepsC (fun k (st : φ) => Gen.Wigner_D_rotor (α := α) (quats ((0 : Int) + (k : Int))) zI g h (L : Int) (L : Int) a b d idW idV idX
+        (rows ((0 : Int) + (k : Int))) aI imsqrt gI ell_min st)
+      (fun k => [idW, idV, idX, zI, aI, gI, rows ((0 : Int) + (k : Int))])
+      (fun k st => D_rotor_only _ zI g h _ _ a b d idW idV idX _ aI imsqrt gI ell_min st) N i hi (rows i) ?_]
+  · simp only [Int.zero_add]
+    exact D_rotor_pure L ell_min zI aI gI (rows i) a b d g h ht imsqrt (quats i) _ st' h0 hz ha hg hza hzg hag ell mp m h1 hl hmp hm
+  · intro k hik hkN
+    obtain ⟨r1, r2, r3, r4⟩ := hrows i hi
+    have := hinj i k hi hkN (by omega)
+    simp only [Int.zero_add, List.mem_cons, List.mem_singleton, List.not_mem_nil, or_false, idW, idV, idX]
+    omega
+
+/-- the row `Wigner.sYlm`'s loop body writes does not depend on the memory it starts from -/
+theorem sYlm_rotor_pure (L P : Nat) (hPL : P ≤ L) (ell_min sw : Int) (zI aI YI : Nat) (a b d g h : Int → α) (ht : TabOK L a b d g h)
+    (imsqrt : Cx α → α) (cpowi : Cx α → Int → Cx α) (R : Int → α) (st₁ st₂ : φ) (h0 : 0 ≤ ell_min)
+    (hz : 2 < zI) (ha : 2 < aI) (hza : zI ≠ aI) (hs : sw.natAbs ≤ P)
+    (ell : Nat) (m : Int) (h1 : ell_min ≤ ell) (hl : ell ≤ L) (hm : m.natAbs ≤ ell) :
+    frdC (α := α) (Gen.Wigner_sYlm_rotor (α := α) R zI g h (L : Int) (P : Int) a b d idW idV idX YI aI imsqrt cpowi sw ell_min st₁) YI
+        (Yindex (ell : Int) m ell_min)
+      = frdC (α := α) (Gen.Wigner_sYlm_rotor (α := α) R zI g h (L : Int) (P : Int) a b d idW idV idX YI aI imsqrt cpowi sw ell_min st₂) YI
+        (Yindex (ell : Int) m ell_min) := by
+  rw [sYlm_rotor_eq L P ell_min sw zI aI YI a b d g h imsqrt cpowi R st₁ hz ha hza,
+    sYlm_rotor_eq L P ell_min sw zI aI YI a b d g h imsqrt cpowi R st₂ hz ha hza,
+    (GenEuler.gen_euler_phases R zI st₁).2.2, (GenEuler.gen_euler_phases R zI st₂).2.2,
+    GenChain.gen_Y_chain L P ell_min sw zI aI YI a b d g h ht imsqrt _ R st₁ (fun _ => R 0) h0 hs (by omega) ell m h1 hl (by omega) (by omega),
+    GenChain.gen_Y_chain L P ell_min sw zI aI YI a b d g h ht imsqrt _ R st₂ (fun _ => R 0) h0 hs (by omega) ell m h1 hl (by omega) (by omega)]
+  exact C09.objY_pure L P hPL _ _ _ _ _ _ imsqrt _ sw ell m hs hl hm
+
+/-- **C17 for the generated `Wigner.sYlm`**: row `i` after the loop over `N` rotors = the single-rotor body on any memory -/
+theorem sYlm_loop_row (N : Nat) (L P : Nat) (hPL : P ≤ L) (ell_min sw : Int) (zI aI : Nat) (rows : Int → Nat) (a b d g h : Int → α)
+    (ht : TabOK L a b d g h) (imsqrt : Cx α → α) (cpowi : Cx α → Int → Cx α) (quats : Int → Int → α) (st st' : φ) (h0 : 0 ≤ ell_min)
+    (hz : 2 < zI) (ha : 2 < aI) (hza : zI ≠ aI) (hs : sw.natAbs ≤ P)
+    (hrows : ∀ k : Nat, k < N → 2 < rows k ∧ rows k ≠ zI ∧ rows k ≠ aI)
+    (hinj : ∀ j k : Nat, j < N → k < N → j ≠ k → rows j ≠ rows k)
+    (i : Nat) (hi : i < N) (ell : Nat) (m : Int) (h1 : ell_min ≤ ell) (hl : ell ≤ L) (hm : m.natAbs ≤ ell) :
+    frdC (α := α) (Gen.Wigner_sYlm_loop (α := α) (N : Int) quats zI g h (L : Int) (P : Int) a b d idW idV idX rows aI imsqrt cpowi sw ell_min st)
+        (rows i) (Yindex (ell : Int) m ell_min)
+      = frdC (α := α) (Gen.Wigner_sYlm_rotor (α := α) (quats i) zI g h (L : Int) (P : Int) a b d idW idV idX (rows i) aI imsqrt cpowi sw ell_min st')
+        (rows i) (Yindex (ell : Int) m ell_min) := by
+  unfold Gen.Wigner_sYlm_loop
+  have eN : ((N : Int) - (0 : Int)).toNat = N := by omega
+  rw [eN]
+  rw [loop_keepsC (fun k (st : φ) => Gen.Wigner_sYlm_rotor (α := α) (quats ((0 : Int) + (k : Int))) zI g h (L : Int) (P : Int) a b d idW idV idX
+        (rows ((0 : Int) + (k : Int))) aI imsqrt cpowi sw ell_min st)
+      (fun k => [idW, idV, idX, zI, aI, rows ((0 : Int) + (k : Int))])
+      (fun k st => sYlm_rotor_only _ zI g h _ _ a b d idW idV idX _ aI imsqrt cpowi sw ell_min st) N i hi (rows i) ?_]
+  · simp only [Int.zero_add]
+    exact sYlm_rotor_pure L P hPL ell_min sw zI aI (rows i) a b d g h ht imsqrt cpowi (quats i) _ st' h0 hz ha hza hs ell m h1 hl hm
+  · intro k hik hkN
+    obtain ⟨r1, r2, r3⟩ := hrows i hi
+    have := hinj i k hi hkN (by omega)
+    simp only [Int.zero_add, List.mem_cons, List.mem_singleton, List.not_mem_nil, or_false, idW, idV, idX]
+    omega
+
+/-- the value the Horner branch of `Wigner.evaluate` writes for one rotor does not depend on the memory it starts from, nor on what the
+    output cell held -/
+theorem evaluate_rotor_pure (L P : Nat) (hPL : P ≤ L) (sw : Int) (ellMax : Nat) (zI fvI : Nat) (a b d g h : Int → α) (ht : TabOK L a b d g h)
+    (cpowi : Cx α → Int → Cx α) (ncols : Int) (farr : Array (Cx α)) (R : Int → α) (st₁ st₂ : φ) (hz : 2 < zI) (hsP : sw.natAbs ≤ P) (hM : ellMax ≤ L) :
+    frdC (α := α) (Gen.Wigner_evaluate_rotor (α := α) R zI g h (L : Int) (P : Int) a b d idW idV idX (fun i => Model.cget farr i.toNat) fvI
+        0 0 (ellMax : Int) sw 1 ncols cpowi st₁) fvI 0
+      = frdC (α := α) (Gen.Wigner_evaluate_rotor (α := α) R zI g h (L : Int) (P : Int) a b d idW idV idX (fun i => Model.cget farr i.toNat) fvI
+        0 0 (ellMax : Int) sw 1 ncols cpowi st₂) fvI 0 := by
+  rw [evaluate_rotor_eq L P sw ellMax zI fvI a b d g h cpowi ncols farr R st₁ hz, evaluate_rotor_eq L P sw ellMax zI fvI a b d g h cpowi ncols farr R st₂ hz]
+  obtain ⟨p1, e1⟩ := GenChain.gen_evaluate_chain L P sw ellMax zI fvI a b d g h ht cpowi ncols farr R st₁ (fun _ => R 0) hsP hM
+  obtain ⟨p2, e2⟩ := GenChain.gen_evaluate_chain L P sw ellMax zI fvI a b d g h ht cpowi ncols farr R st₂ (fun _ => R 0) hsP hM
+  rw [e1, e2]
+  exact C09.objEvalH_pure L P hPL _ _ _ _ _ _ _ farr sw ellMax p1 p2 hsP hM
+
+/-- **C17 for the generated Horner `Wigner.evaluate`** (one row of weights): after the loop over `N` rotors, the output cell of rotor `i`
+    (its own column) = the single-rotor body on any memory -/
+theorem evaluate_loop_col (N : Nat) (L P : Nat) (hPL : P ≤ L) (sw : Int) (ellMax : Nat) (zI : Nat) (cols : Int → Nat) (a b d g h : Int → α)
+    (ht : TabOK L a b d g h) (cpowi : Cx α → Int → Cx α) (ncols : Int) (farr : Array (Cx α)) (quats : Int → Int → α) (st st' : φ)
+    (hz : 2 < zI) (hsP : sw.natAbs ≤ P) (hM : ellMax ≤ L)
+    (hcols : ∀ k : Nat, k < N → 2 < cols k ∧ cols k ≠ zI)
+    (hinj : ∀ j k : Nat, j < N → k < N → j ≠ k → cols j ≠ cols k) (i : Nat) (hi : i < N) :
+    frdC (α := α) (Gen.Wigner_evaluate_loop (α := α) (N : Int) quats zI g h (L : Int) (P : Int) a b d idW idV idX (fun i => Model.cget farr i.toNat) cols
+        0 0 (ellMax : Int) sw 1 ncols cpowi st) (cols i) 0
+      = frdC (α := α) (Gen.Wigner_evaluate_rotor (α := α) (quats i) zI g h (L : Int) (P : Int) a b d idW idV idX (fun i => Model.cget farr i.toNat) (cols i)
+        0 0 (ellMax : Int) sw 1 ncols cpowi st') (cols i) 0 := by
+  unfold Gen.Wigner_evaluate_loop
+  have eN : ((N : Int) - (0 : Int)).toNat = N := by omega
+  rw [eN]
+  rw [loop_keepsC (fun k (st : φ) => Gen.Wigner_evaluate_rotor (α := α) (quats ((0 : Int) + (k : Int))) zI g h (L : Int) (P : Int) a b d idW idV idX
+        (fun i => Model.cget farr i.toNat) (cols ((0 : Int) + (k : Int))) 0 0 (ellMax : Int) sw 1 ncols cpowi st)
+      (fun k => [idW, idV, idX, zI, cols ((0 : Int) + (k : Int))])
+      (fun k st => evaluate_rotor_only _ zI g h _ _ a b d idW idV idX _ _ _ _ _ _ _ _ cpowi st) N i hi (cols i) ?_]
+  · simp only [Int.zero_add]
+    exact evaluate_rotor_pure L P hPL sw ellMax zI (cols i) a b d g h ht cpowi ncols farr (quats i) _ st' hz hsP hM
+  · intro k hik hkN
+    obtain ⟨r1, r2⟩ := hcols i hi
+    have := hinj i k hi hkN (by omega)
+    simp only [Int.zero_add, List.mem_cons, List.mem_singleton, List.not_mem_nil, or_false, idW, idV, idX]
+    omega
+
+/-- the weights the Horner branch of `Wigner.rotate` writes do not depend on the memory it starts from -/
+theorem rotate_rotor_pure (L : Nat) (sw : Int) (ellMax : Nat) (zI flnI nT pT : Nat) (a b d g h : Int → α) (ht : TabOK L a b d g h)
+    (cpowi : Cx α → Int → Cx α) (ncn nc : Int) (farr : Array (Cx α)) (R : Int → α) (st₁ st₂ : φ) (hz : 2 < zI)
+    (h1 : nT ≠ pT) (h2 : flnI ≠ nT) (h3 : flnI ≠ pT) (hM : ellMax ≤ L)
+    (n : Nat) (m : Int) (hsn : sw.natAbs ≤ n) (hn : n ≤ ellMax) (hm : m.natAbs ≤ n) :
+    frdC (α := α) (Gen.Wigner_rotate_rotor (α := α) R zI g h (L : Int) (L : Int) a b d idW idV idX (fun i => Model.cget farr i.toNat) flnI
+        0 0 (ellMax : Int) sw nT pT 1 1 ncn nc cpowi st₁) flnI ((n : Int) * ((n : Int) + 1) + m)
+      = frdC (α := α) (Gen.Wigner_rotate_rotor (α := α) R zI g h (L : Int) (L : Int) a b d idW idV idX (fun i => Model.cget farr i.toNat) flnI
+        0 0 (ellMax : Int) sw nT pT 1 1 ncn nc cpowi st₂) flnI ((n : Int) * ((n : Int) + 1) + m) := by
+  rw [rotate_rotor_eq L sw ellMax zI flnI nT pT a b d g h cpowi ncn nc farr R st₁ hz, rotate_rotor_eq L sw ellMax zI flnI nT pT a b d g h cpowi ncn nc farr R st₂ hz,
+    GenChain.gen_rotate_chain L sw ellMax zI flnI nT pT a b d g h ht cpowi ncn nc farr R st₁ (fun _ => R 0) h1 h2 h3 hM n m hsn hn (by omega) (by omega),
+    GenChain.gen_rotate_chain L sw ellMax zI flnI nT pT a b d g h ht cpowi ncn nc farr R st₂ (fun _ => R 0) h1 h2 h3 hM n m hsn hn (by omega) (by omega)]
+  exact C09.objRotH_pure L _ _ _ _ _ _ _ farr sw n m (by omega) hm
+end
+
 /-! ### the documented functions, for the generated method bodies (exact reals, every unit quaternion) -/
 section
 variable {φ : Type} [FMem φ ℝ] [LawfulFMem φ ℝ]
@@ -190,4 +355,19 @@ theorem rotate_rotor_doc (L : Nat) (sw : Int) (ellMax : Nat) (zI flnI nT pT : Na
   rw [rotate_rotor_eq L sw ellMax zI flnI nT pT a b d g h cpowi ncn nc farr _ F hz]
   exact GenChain.gen_rotate_chain_doc L sw ellMax zI flnI nT pT a b d g h ht cpowi ncn nc farr R hR F h1 h2 h3 hM n m hsn hn hm hpow
 end
+
+/-- the premises of `D_loop_row` are satisfiable: IEEE doubles on the executable memory, a calculator with `ell_max = 3` and the
+    tables the driver builds, three rotors, rows 7, 8, 9, workspace parts 0..6 — row 1, entry (3, −2, 3) -/
+example (quats : Int → Int → Float) (imsqrt : Cx Float → Float) (st st' : HFMem Float) :
+    frdC (α := Float) (Gen.Wigner_D_loop (α := Float) ((3 : Nat) : Int) quats 6 (tabOfRange Scalar.half (Spec.nmRange 4) Gen.tab_g)
+        (tabOfRange Scalar.half (Spec.nmRange 4) Gen.tab_h) ((3 : Nat) : Int) ((3 : Nat) : Int)
+        (tabOfRange Scalar.half (Spec.nabsmRange 4) Gen.tab_a) (tabOfRange Scalar.half (Spec.nmRange 4) Gen.tab_b)
+        (tabOfRange Scalar.half (Spec.nmRange 4) Gen.tab_d) idW idV idX (fun i => 7 + i.toNat) 4 imsqrt 5 0 st) 8 (WignerDindex ((3 : Nat) : Int) (-2) 3 0 (-1))
+      = frdC (α := Float) (Gen.Wigner_D_rotor (α := Float) (quats 1) 6 (tabOfRange Scalar.half (Spec.nmRange 4) Gen.tab_g)
+        (tabOfRange Scalar.half (Spec.nmRange 4) Gen.tab_h) ((3 : Nat) : Int) ((3 : Nat) : Int)
+        (tabOfRange Scalar.half (Spec.nabsmRange 4) Gen.tab_a) (tabOfRange Scalar.half (Spec.nmRange 4) Gen.tab_b)
+        (tabOfRange Scalar.half (Spec.nmRange 4) Gen.tab_d) idW idV idX 8 4 imsqrt 5 0 st') 8 (WignerDindex ((3 : Nat) : Int) (-2) 3 0 (-1)) :=
+  D_loop_row 3 3 0 6 4 5 (fun i => 7 + i.toNat) _ _ _ _ _ (tabOK_ranges 3) imsqrt quats st st' (by decide) (by decide) (by decide) (by decide)
+    (by decide) (by decide) (by decide) (fun k hk => by simp only [Int.toNat_natCast]; omega)
+    (fun j k _ _ hjk => by simp only [Int.toNat_natCast]; omega) 1 (by decide) 3 (-2) 3 (by decide) (by decide) (by decide) (by decide)
 end GenMethod
